@@ -114,10 +114,20 @@ func (f *c02File) WriteAt(p []byte, off int64) (int, error) {
 	if f.crashed {
 		return 0, errors.New("verif: process is dead")
 	}
+	if rs := f.w.rsHere(); rs != nil { // the zero write of the RemoveSector in progress
+		if rs.failZero {
+			f.w.step("XRsZero false", "OM (ORes (Err EOther))")
+			return 0, errors.New("verif: injected write error")
+		}
+		f.overlay[off] = append([]byte(nil), p...)
+		f.w.step("XRsZero true", c02Res(nil))
+		return len(p), nil
+	}
 	if f.w.takeFault(&f.w.failWrite) {
 		return 0, errors.New("verif: injected write error")
 	}
 	f.overlay[off] = append([]byte(nil), p...)
+	f.w.noteWrite(f.id, off)
 	return len(p), nil
 }
 
@@ -125,6 +135,22 @@ func (f *c02File) WriteAt(p []byte, off int64) (int, error) {
 // migrateSector / RemoveSector / Close) it is a step of the model, can be made to fail (the
 // pages stay dirty, a later fsync can succeed) and can be stalled.
 func (f *c02File) Sync() error {
+	if rs := f.w.rsHere(); rs != nil { // the fsync of the RemoveSector in progress; the cache drop and the return follow
+		rs.park(3)
+		f.mu.Lock()
+		defer f.mu.Unlock()
+		if f.crashed {
+			return errors.New("verif: process is dead")
+		}
+		for off, b := range f.overlay {
+			if _, err := f.inner.WriteAt(b, off); err != nil {
+				return err
+			}
+		}
+		f.overlay = map[int64][]byte{}
+		f.w.step("XRsEnd true", c02Res(nil))
+		return nil
+	}
 	t, isSync := f.w.syncThreadOf(c02Goid())
 	if isSync {
 		if f.w.takeFault(&f.w.failSync) {
@@ -241,6 +267,14 @@ type c02World struct {
 	nvol                int
 
 	volumeHook func() // one-shot: runs after the next Store.Volume read
+
+	// finer steps (verif_c02_steps_test.go): steps are recorded for coq/Storage/DataModel.v's xstep,
+	// a RemoveSector in progress is recorded (and can be parked) at its internal steps
+	xmode      bool
+	rs         *c02RS
+	writeLog   []c02WriteEv    // data writes by anybody but the RemoveSector in progress
+	overwritten map[int]bool   // roots whose slot was overwritten by the writer of a removed in-flight upload
+	lastC      int             // content identity returned by the last read (-1: error)
 	staleSize  bool   // a ResizeVolume call was overtaken by another one (classification of monitor hits)
 	lastExists bool   // the last StoreSector call returned nil without calling the StoreFunc
 	heldRoots  map[int]bool
@@ -269,6 +303,9 @@ type c02Con struct {
 func (w *c02World) fatalf(f string, a ...any) { panic(fmt.Sprintf("c02-fatal: "+f, a...)) }
 func (w *c02World) step(op, obs string) {
 	w.mu.Lock()
+	if w.xmode && !strings.HasPrefix(op, "XRs") {
+		op = "XD (" + op + ")"
+	}
 	w.res.steps = append(w.res.steps, "("+op+", "+obs+")")
 	w.mu.Unlock()
 }
@@ -315,11 +352,17 @@ func (w *c02World) emitFsync(t int, vol int64, ok bool) {
 	}
 	w.mu.Lock()
 	defer w.mu.Unlock()
+	x := func(op string) string {
+		if w.xmode {
+			return "XD (" + op + ")"
+		}
+		return op
+	}
 	if ok {
-		w.res.steps = append(w.res.steps, fmt.Sprintf("(DFsync %d %d true, %s)", t, vol, c02Res(nil)),
-			fmt.Sprintf("(DClear %d, %s)", t, c02Res(nil)))
+		w.res.steps = append(w.res.steps, fmt.Sprintf("(%s, %s)", x(fmt.Sprintf("DFsync %d %d true", t, vol)), c02Res(nil)),
+			fmt.Sprintf("(%s, %s)", x(fmt.Sprintf("DClear %d", t)), c02Res(nil)))
 	} else {
-		w.res.steps = append(w.res.steps, fmt.Sprintf("(DFsync %d %d false, OM (ORes (Err EOther)))", t, vol))
+		w.res.steps = append(w.res.steps, fmt.Sprintf("(%s, OM (ORes (Err EOther)))", x(fmt.Sprintf("DFsync %d %d false", t, vol))))
 	}
 }
 
@@ -364,6 +407,35 @@ func (s *c02Store) Volume(id int64) (storage.Volume, error) {
 		h()
 	}
 	return v, err
+}
+
+// SectorLocation / RemoveSector are passed through; when they are called by the RemoveSector in
+// progress they are its first two internal steps.
+func (s *c02Store) SectorLocation(root types.Hash256) (storage.SectorLocation, error) {
+	loc, err := s.Store.SectorLocation(root)
+	if rs := s.w.rsHere(); rs != nil && !s.dead {
+		if err == nil {
+			rs.vol, rs.idx, rs.located = loc.Volume, loc.Index, true
+			s.w.step(fmt.Sprintf("XRsLocate %d", rs.root), fmt.Sprintf("OM (OLoc (Some (%d, %d)))", loc.Volume, loc.Index))
+			rs.park(1)
+		} else {
+			s.w.step(fmt.Sprintf("XRsLocate %d", rs.root), c02Res(err))
+		}
+	}
+	return loc, err
+}
+
+func (s *c02Store) RemoveSector(root types.Hash256) error {
+	err := s.Store.RemoveSector(root)
+	if rs := s.w.rsHere(); rs != nil && !s.dead {
+		rs.commitTried = true
+		s.w.step("XRsCommit", c02Res(err))
+		if err == nil {
+			rs.committed = true
+			rs.park(2)
+		}
+	}
+	return err
 }
 
 func (s *c02Store) AddVolume(path string, ro bool) (int64, error) {
@@ -499,6 +571,57 @@ func (s *c02Store) StoreSector(root types.Hash256, fn storage.StoreFunc) error {
 		close(hold.reached)
 	}
 	return err
+}
+
+// ---------------------------------------------------------------- hooks for the finer steps (driven by verif_c02_steps_test.go)
+
+type c02WriteEv struct {
+	vol int64
+	off int64
+}
+
+// c02RS is a VolumeManager.RemoveSector call in progress.
+type c02RS struct {
+	w        *c02World
+	root     int
+	goid     int64
+	parkAt   int // 0: never; 1: after SectorLocation; 2: after Store.RemoveSector; 3: after the zero write (in the fsync)
+	failZero bool
+	reached  chan struct{}
+	release  chan struct{}
+	done     chan error
+	parked   bool
+	// what it did so far
+	located, committed bool
+	commitTried        bool
+	vol                int64
+	idx                uint64
+}
+
+func (rs *c02RS) park(at int) {
+	if rs.parkAt != at {
+		return
+	}
+	rs.parked = true
+	close(rs.reached)
+	<-rs.release
+}
+
+// rsHere returns the RemoveSector in progress if the calling goroutine is the one running it.
+func (w *c02World) rsHere() *c02RS {
+	w.mu.Lock()
+	rs := w.rs
+	w.mu.Unlock()
+	if rs == nil || rs.goid != c02Goid() {
+		return nil
+	}
+	return rs
+}
+
+func (w *c02World) noteWrite(vol int64, off int64) {
+	w.mu.Lock()
+	w.writeLog = append(w.writeLog, c02WriteEv{vol, off})
+	w.mu.Unlock()
 }
 
 // ---------------------------------------------------------------- world
@@ -735,6 +858,12 @@ func (w *c02World) removeVolume(id int64, force bool) {
 func (w *c02World) removeSector(r int) {
 	lost0 := w.lost()
 	err := w.vm.RemoveSector(c02RootsOf[r])
+	if err != nil && strings.Contains(err.Error(), "sector is being written") {
+		// only with fixes/C02-remove-sector-in-flight.patch: refused before anything was touched, not a step
+		w.count("op:RemoveSector:refused-upload-in-flight")
+		w.snapshot()
+		return
+	}
 	w.step(fmt.Sprintf("DRemoveSector %d", r), c02Res(err))
 	w.count("op:RemoveSector:" + c02Err(err))
 	want := uint64(0)
@@ -965,6 +1094,7 @@ func (w *c02World) read(r int, failIO bool) {
 		w.step(op, fmt.Sprintf("ORead %s %d", coqBool(h1 > h0), c))
 	}
 	w.count(fmt.Sprintf("read:hit=%v,err=%v,good=%v", h1 > h0, err != nil, c == r))
+	w.lastC = c
 	if injected {
 		return
 	}
@@ -977,6 +1107,8 @@ func (w *c02World) read(r int, failIO bool) {
 		// StoreSector answers "exists" for any root that has a slot, whether or not the data was
 		// (durably) written: the three ways this makes an acknowledged reference unreadable
 		switch {
+		case w.overwritten[r]:
+			w.monitor("remove-sector-of-in-flight-upload-overwrites-new-tenant", detail)
 		case w.staleSize:
 			w.monitor("resize-overtaken-by-earlier-resize-truncated-data", detail)
 		case w.viaHole[r]:
